@@ -54,6 +54,7 @@ func runC04(c *wk.Ctx) {
 	n := c.N(2500, 600000)
 	c.Cases(n, func(idx int64, r *wk.Rand) {
 		cfg := gen.Full()
+		cfg.TypedVariants = true
 		var shape *gen.Shape
 		tricky := gen.TrickyShapes()
 		if idx < int64(4*len(tricky)) {
